@@ -426,6 +426,21 @@ class CallMixin:
             if name in ("lower", "upper") and s.kind == "chr":
                 pass
             return r
+        if name in ("isdigit", "isspace", "isalpha", "isalnum") and s.kind == "chr":
+            # Unicode-aware character classes: uninterpreted predicates with the facts that matter - they contain the
+            # ASCII class and are strictly larger (one witness each), so code that relies on them for ASCII-only input
+            # cannot be proved
+            f = z3.Function("str_" + name, z3.IntSort(), z3.BoolSort())
+            key = ("strclass", name)
+            if key not in self.unfolded:
+                self.unfolded.add(key)
+                c = z3.Int("q_c")
+                if name == "isdigit":
+                    self.assume(z3.ForAll([c], z3.Implies(z3.And(c >= 48, c <= 57), f(c)), patterns=[f(c)]))
+                    self.assume(f(z3.IntVal(0xB2)))  # SUPERSCRIPT TWO is a digit for str.isdigit, not for int()
+                elif name == "isspace":
+                    self.assume(z3.And(f(z3.IntVal(32)), f(z3.IntVal(9)), f(z3.IntVal(0xA0)), f(z3.IntVal(0x2003))))
+            return VBool(f(s.a))
         if name == "startswith" and isinstance(args[0], VStr) and args[0].kind == "lit":
             lit = args[0].a
             return VBool(z3.And(s.length() >= len(lit), *[s.char(z3.IntVal(j)) == ord(ch) for j, ch in enumerate(lit)]))
@@ -457,6 +472,12 @@ class CallMixin:
             t = VTuple(vals)
             t.cls = "Rule"
             return t
+        if cls in SCHEMA and cls in CLASS_MODULE:
+            q = self.method_qualname(cls, "__init__")
+            if q and q in self.registry and self.registry[q].inline:
+                obj = VObj(self.new_ref(cls.lower().strip("_")), cls)
+                self.call_pkg(q, [obj] + list(args), kwargs, node, fr)
+                return obj
         raise Unsupported(f"constructor {qual}")
 
     def coerce(self, cls, fname, v):
